@@ -788,6 +788,20 @@ fn schedules_from_bdl(bdl: &Data, id_maps: &IdMaps) -> Result<SchedulesDb, Error
                 // - el día final hasta el que se aplica
                 // - el número de días que está vigente
                 let id = id_maps.schedule_year_id(&sch.name)?;
+                // Las fechas de fin deben ser fechas del calendario
+                if let Some((day, month)) = sch
+                    .days
+                    .iter()
+                    .zip(sch.months.iter())
+                    .find(|(day, month)| !(1..=12).contains(*month) || !(1..=31).contains(*day))
+                {
+                    bail!(
+                        "Horario anual {} con fecha de fin incorrecta (día {}, mes {})",
+                        sch.name,
+                        day,
+                        month
+                    );
+                }
                 let end_day: Vec<_> = std::iter::once(0u32)
                     .chain(
                         sch.days
